@@ -420,6 +420,7 @@ def check_updates(ctx, terms=None):
     hist, hops, outs = [], [], []
     cur = 0
     buf = None
+    held = []
     for step in range(rng.randint(3, 10)):
         if rng.random() < 0.35:
             cur = rng.randrange(len(rlist))
@@ -464,6 +465,19 @@ def check_updates(ctx, terms=None):
                            "history": hist, "err": str(e)},
                           {"kind": "exception"})
             return
+        # a result the caller still holds must not change when a later
+        # evaluation runs (comparing values before and after an update)
+        for hname, hstep, ref, snap in held:
+            if not np.array_equal(np.asarray(ref), snap):
+                ctx.violation("ResNetwork." + hname,
+                              "a result handed out earlier changed when "
+                              + name + " was evaluated later",
+                              {"resistances": [x.tolist() for x in rlist],
+                               "history": hist, "held_since_step": hstep},
+                              {"held": True})
+                return
+        if isinstance(got, np.ndarray):
+            held.append((name, step, got, np.array(got, copy=True)))
         if not np.allclose(np.asarray(got, dtype=complex),
                            np.asarray(want, dtype=complex), rtol=1e-9,
                            atol=1e-9 * np.abs(np.asarray(
